@@ -142,6 +142,26 @@ POOL[12] = dict(name="DTCWTForward(J=2,legall,qshift_06)", make=lambda: pw.DTCWT
                 args={k: v for k, v in POOL[2]["args"].items()})
 
 
+# separate column / row filters of different lengths (the documented 4-tuple form): paths that pass the four buffers on
+# positionally in another order are wrong only here
+_T4A = ([0.5, 1.0, -0.25, 0.125], [0.25, -1.0, 0.5, 2.0], [1.0, 0.5], [0.5, -1.0])
+POOL[17] = dict(name="DWTForward(J=2,4-tuple col4|row2,periodization)", make=lambda: pw.DWTForward(J=2, wave=_T4A, mode="periodization"),
+                args={k: v for k, v in POOL[1]["args"].items()})
+POOL[19] = dict(name="DWTInverse(4-tuple col4|row2,periodization)", make=lambda: pw.DWTInverse(wave=_T4A, mode="periodization"),
+                args={1: lambda dt: _pyr_dwt4((1, 2, 8, 12), dt, 191), 2: lambda dt: _pyr_dwt4((2, 1, 8, 8), dt, 192),
+                      3: lambda dt: _pyr_dwt4((1, 1, 16, 20), dt, 193)})
+
+
+def _pyr_dwt4(shape, dt, seed):
+    g = torch.Generator().manual_seed(seed)
+    x = torch.randn(*shape, generator=g, dtype=torch.float64)
+    yl, yh = pw.DWTForward(J=2, wave=_T4A, mode="periodization").double()(x)
+    return (torch.randn(*yl.shape, generator=g, dtype=torch.float64).to(dt), [torch.randn(*h.shape, generator=g, dtype=torch.float64).to(dt) for h in yh])
+
+
+POOL[19]["args"][4] = lambda dt: _pyr_dwt4((2, 1, 10, 10), dt, 194)
+
+
 def _bump(shape):
     """a size one larger on every signal axis: lands in the same rounding block (multiple of 2, 4, 8) as the original for most
     sizes - where a cached size decision of an earlier call would be reused wrongly"""
@@ -149,11 +169,13 @@ def _bump(shape):
 
 
 # argument 4 of every configuration: argument 2 with every signal axis one sample longer
-_ARG2_SHAPES = {1: (2, 1, 8, 8), 2: (1, 1, 7, 9), 3: (1, 3, 8), 4: (2, 1, 9, 10), 5: (2, 1, 8, 8), 6: (1, 1, 7, 9), 7: (2, 1, 8, 8),
+_ARG2_SHAPES = {17: (2, 1, 8, 8), 1: (2, 1, 8, 8), 2: (1, 1, 7, 9), 3: (1, 3, 8), 4: (2, 1, 9, 10), 5: (2, 1, 8, 8), 6: (1, 1, 7, 9), 7: (2, 1, 8, 8),
                 8: (2, 1, 9, 12), 9: (1, 3, 8), 10: (1, 1, 7, 9), 11: (1, 3, 8), 12: (1, 1, 7, 9), 13: (2, 1, 8, 8), 15: (1, 3, 8)}
 for _c, _shp in _ARG2_SHAPES.items():
     if _c in (5,):
         POOL[_c]["args"][4] = (lambda shp: (lambda dt: _pyr_dwt(_bump(shp), dt, 504)))(_shp)
+    elif _c == 19:
+        pass
     elif _c in (6, 10):
         POOL[_c]["args"][4] = (lambda shp: (lambda dt: _pyr_dtcwt(_bump(shp), dt, 604)))(_shp)
     elif _c == 15:
